@@ -47,6 +47,17 @@ func c14Forms() []c14Form {
 		c14Form{"object3", "O", []string{"N", "N", "N"}, "{k: %0, a: %1, z: %2}"},
 		c14Form{"builtin-max", "N", []string{"N", "N", "N"}, BI("max", "%0", "%1", "%2")}, c14Form{"builtin-pow", "N", []string{"N", "N"}, BI("pow", "%0", "%1")},
 		c14Form{"len", "N", []string{"A"}, BI("len", "%0")},
+		// operands of a faulting operation are still evaluated once, in order, before the fault
+		c14Form{"index-on-nonarray", "N", []string{"Z", "I"}, "%0[%1]"},
+		c14Form{"setindex-on-nonarray", "N", []string{"Z", "I", "N"}, "(%0[%1] = %2)"},
+		c14Form{"index-bad-index", "N", []string{"A", "J"}, "%0[%1]"},
+		c14Form{"setindex-bad-index", "N", []string{"A", "J", "N"}, "(%0[%1] = %2)"},
+		c14Form{"plus-bad-left", "N", []string{"Z", "N"}, "(%0 + %1)"}, c14Form{"minus-bad-right", "N", []string{"N", "Z"}, "(%0 - %1)"},
+		c14Form{"less-bad-left", "B", []string{"Z", "N"}, "(%0 < %1)"}, c14Form{"and-bad-right", "N", []string{"N", "Z"}, "(%0 & %1)"},
+		c14Form{"divide-by-zero", "N", []string{"N", "ZERO"}, "(%0 / %1)"}, c14Form{"neg-bad", "N", []string{"Z"}, "(-%0)"},
+		c14Form{"prop-on-nonobject", "N", []string{"Z"}, "%0.k"},
+		c14Form{"builtin-bad-second", "N", []string{"N", "Z"}, BI("pow", "%0", "%1")},
+		c14Form{"array-with-fault-inside", "A", []string{"N", "ZERODIV", "N"}, "[%0, %1, %2]"},
 	)
 	return f
 }
@@ -80,6 +91,14 @@ func (g *c14Gen) leaf(kind string) string {
 		return g.probe("f", "add3")
 	case "B":
 		return g.probe("b", []string{True(), False()}[g.r.Intn(2)])
+	case "Z": // a value no arithmetic / index / property operation supports
+		return g.probe("z", []string{"nil", True(), "zero", "{k: 1}"}[g.r.Intn(4)])
+	case "J": // a bad index
+		return g.probe("j", []string{"(-1)", "1.5", `"x"`, "nil", "5", "[0]"}[g.r.Intn(6)])
+	case "ZERO":
+		return g.probe("n", "0")
+	case "ZERODIV":
+		return "(" + g.probe("n", "1") + " / " + g.probe("n", "0") + ")"
 	}
 	panic(kind)
 }
@@ -262,7 +281,7 @@ func c14Run(c *Ctx) {
 func init() {
 	register(&CheckDef{
 		ID:   "C14",
-		Rule: "expressions: 45 forms (every binary/comparison/logical operator in both spellings, unary, grouping, index, call with 0/2/3 arguments whose callee is itself a probe, property read, assignment as expression, indexed store, property store, concatenations, array/object literals, built-in calls) with a tagged probe call `p(tag, value)` at every leaf: every form at depth 1 (6 value draws), every form x every compatible sub-form at depth 2, seeded random nests at depth 3; truthiness table: 29 falsy/truthy values of every kind (strings and numbers from several producers) x 11 contexts (if, !, !!, ||, &&, word spellings, while, for, mixed); hand-written order cases. The printed probe-tag sequence and result are compared with refborno (exactly-once, left-to-right, short-circuit, deciding operand returned). Non-trivial = distinct decided program.",
+		Rule: "expressions: 58 forms (45 value forms and 13 forms whose operation faults after its operands were evaluated: index / indexed store on a non-array or with a bad index, operators with an unsupported operand on either side, zero divisor, property of a non-object, built-in with a bad later argument, a fault inside an array literal) (every binary/comparison/logical operator in both spellings, unary, grouping, index, call with 0/2/3 arguments whose callee is itself a probe, property read, assignment as expression, indexed store, property store, concatenations, array/object literals, built-in calls) with a tagged probe call `p(tag, value)` at every leaf: every form at depth 1 (6 value draws), every form x every compatible sub-form at depth 2, seeded random nests at depth 3; truthiness table: 29 falsy/truthy values of every kind (strings and numbers from several producers) x 11 contexts (if, !, !!, ||, &&, word spellings, while, for, mixed); hand-written order cases. The printed probe-tag sequence and result are compared with refborno (exactly-once, left-to-right, short-circuit, deciding operand returned). Non-trivial = distinct decided program.",
 		Assumptions: []string{"operand values are type-correct for their operator so that no fault interferes with the order being observed (faults may still arise, e.g. zero divisors, and are then compared too)"},
 		Run:         c14Run,
 		Judge:       c14Judge,
